@@ -829,7 +829,7 @@ impl Sim {
                     let l = self.link.lock().unwrap_or_else(std::sync::PoisonError::into_inner);
                     l.ends[i].rcv_log.as_ref().map(decode_item).unwrap_or_else(none_msg)
                 } else {
-                    Value::Null
+                    none_msg()
                 };
                 self.emit(json!({"ev": "panic", "cmd": cmd, "panic": msg, "rcv": rcv}));
                 self.dead = true;
